@@ -334,7 +334,7 @@ func check(prop string, args []string) int {
 	if p.Sizes == nil {
 		p.Sizes = types.SizesFor("gc", "amd64")
 	}
-	cfg := vexec.RunConfig{SolverKind: *solverKind, Pool: pool, Workers: *workers, Verbose: *verbose, SolverMs: 3000, PortfolioS: 20, MaxPaths: 250000, Deadline: 8 * time.Minute}
+	cfg := vexec.RunConfig{SolverKind: *solverKind, Pool: pool, Workers: *workers, Verbose: *verbose, SolverMs: 3000, PortfolioS: 20, MaxPaths: 400000, Deadline: 8 * time.Minute}
 	if tierN == 1 {
 		cfg.SolverMs = 10000
 		cfg.PortfolioS = 120
